@@ -43,7 +43,8 @@ class C03(Prop):
     rule = ("(a) every valid randbelow draw sequence for every list length n <= 5 (6 thorough) through the real random.shuffle; "
             "(b) small joint degree sequences (<= 5 stubs per topology, <= 2 topologies, fast and custom generators): ALL tuples of valid "
             "draw sequences are run through the real generator and the exact histogram of motif placements is compared with the "
-            "push-forward of the uniform measure over all permutations of labelled stubs (no sampling statistics); "
+            "push-forward of the uniform measure over all permutations of labelled stubs (no sampling statistics); (c) one sequence of a "
+            "million stubs per generator on the real RNG, judged by vertex-order symmetry only; "
             "non-trivial = at least 6 draw tuples and at least 2 distinct placements; distinct = distinct (jds, sizes, kind)")
     assumptions = ["randbelow(i+1) results are independent and uniform (property of the Mersenne Twister; nothing here tests a PRNG)",
                    "random.shuffle body is the transcribed CPython 3.12 one (its source is checked against the transcription on every run)"]
@@ -126,6 +127,10 @@ class C03(Prop):
     def exhaustive(self, tier):
         for n in range(0, 6 if tier == "quick" else 7):
             yield {"kind": "shuffle", "n": n}
+        # "by symmetry arguments for larger ones": a sequence far too large to enumerate, run once per generator on the real RNG;
+        # judged only by a symmetry no uniform matching can break by chance (see oracle)
+        for sub in ("fast", "custom"):
+            yield {"kind": "symmetry", "sub": sub, "N": 500001 if sub == "fast" else 500003, "seed": 12345}
 
     def impl(self, case):
         ok, src = gc.shuffle_source_matches()
@@ -143,6 +148,8 @@ class C03(Prop):
                 else:
                     res.append(x)
             return {"results": res}
+        if case["kind"] == "symmetry":
+            return self._symmetry(case)
         jds, sizes = case["jds"], case["sizes"]
         T = len(sizes)
         per_top = [all_valid_draws(sum(r[k] for r in jds)) for k in range(T)]
@@ -190,7 +197,42 @@ class C03(Prop):
                 "hist_built": sorted(hist_b.items()), "ref_built": sorted(ref_b.items()),
                 "n_tuples": len(outs), "unscripted_shuffles": unscripted, "shuffles_missing": sorted(missing)}
 
+    @staticmethod
+    def _symmetry(case):
+        """N vertices of degree 2 in one 2-vertex topology (2N >= 10^6 stubs), the real generator on the real, seeded RNG.  Stubs are
+        created in vertex order, so a matching that favours vertex order joins a vertex to itself or to its successor; under the
+        configuration-model measure an edge does so with probability about 3/N, i.e. about 3 such edges in all."""
+        import random
+        from gcmpy.names.gcm_algorithm_names import GCMAlgorithmNames as GN
+        from gcmpy.gcm_algorithm.gcm_algorithm_fast import GCMAlgorithmFast
+        from gcmpy.gcm_algorithm.gcm_algorithm_custom_motifs import GCMAlgorithmCustomMotifs
+        N = case["N"]
+        jds = [(2,)] * N
+        params = {GN.MOTIF_SIZES: [2], GN.BUILD_FUNCTIONS: [lambda vs: [(vs[0], vs[1])]]}
+        if case["sub"] == "fast":
+            params[GN.EDGE_NAMES] = ["e"]
+            algo = GCMAlgorithmFast(params)
+        else:
+            params[GN.EDGE_NAMES] = [lambda: ("e",)]
+            params[GN.MOTIF_INDICES] = [[0]]
+            algo = GCMAlgorithmCustomMotifs(params)
+        state = random.getstate()
+        random.seed(case["seed"])
+        try:
+            out = algo.random_clustered_graph(jds)
+        finally:
+            random.setstate(state)
+        es = out.edge_list
+        near = sum(1 for e in es if abs(e[0] - e[1]) <= 1)
+        deg = collections.Counter()
+        for a, b in es:
+            deg[a] += 1
+            deg[b] += 1
+        return {"edges": len(es), "near": near, "degrees_ok": len(deg) == N and set(deg.values()) == {2}}
+
     def request(self, case, obs):
+        if case["kind"] == "symmetry":
+            return None         # nothing to enumerate: the model's theorems speak about all sizes, the run is judged by the oracle
         if case["kind"] == "shuffle":
             return {"op": "gen", "kind": "shuffles", "n": case["n"], "jds": [], "sizes": [], "builds": [],
                     "draws": all_valid_draws(case["n"])}
@@ -212,11 +254,21 @@ class C03(Prop):
             return obs
         if case["kind"] == "shuffle":
             return {"results": obs["results"]}
+        if case["kind"] == "symmetry":
+            return {}
         return {"outs": obs["outs"]}
 
     def oracle(self, case, obs):
         if "exc" in obs:
             return [f"raised: {obs['exc']}"]
+        if case["kind"] == "symmetry":
+            f = []
+            if obs["edges"] != case["N"] or not obs["degrees_ok"]:
+                f.append(f"large-sequence: {obs['edges']} edges for {case['N']} vertices of degree 2, degrees realised: {obs['degrees_ok']}")
+            elif obs["near"] > 500:
+                f.append(f"placement-favoured-by-vertex-order: {obs['near']} of {obs['edges']} edges join a vertex to itself or to its "
+                         f"successor in a sequence of {2 * case['N']} stubs; the configuration-model measure gives about 3")
+            return f
         if case["kind"] == "shuffle":
             n = case["n"]
             rs = [tuple(r) for r in obs["results"] if isinstance(r, list)]
@@ -253,18 +305,20 @@ class C03(Prop):
             return False
         if case["kind"] == "shuffle":
             return case["n"] >= 3
+        if case["kind"] == "symmetry":
+            return True
         return obs["n_tuples"] >= 6 and len(obs["hist"]) >= 2
 
     def stats(self, case, obs, hist):
         hist["kind_" + case["kind"]] = hist.get("kind_" + case["kind"], 0) + 1
-        if "exc" not in obs and case["kind"] != "shuffle":
+        if "exc" not in obs and case["kind"] not in ("shuffle", "symmetry"):
             hist["draw_tuples_run"] = hist.get("draw_tuples_run", 0) + obs["n_tuples"]
             hist["distinct_placements"] = hist.get("distinct_placements", 0) + len(obs["hist"])
         if case["kind"] == "shuffle" and "exc" not in obs:
             hist["shuffle_draw_sequences"] = hist.get("shuffle_draw_sequences", 0) + len(obs["results"])
 
     def shrink(self, case):
-        if case["kind"] == "shuffle":
+        if case["kind"] in ("shuffle", "symmetry"):
             return
         jds = case["jds"]
         for v in range(len(jds)):
